@@ -56,10 +56,10 @@ type kase struct {
 var buckets = map[string]string{"plain": "vhplain", "hyphen": "vh-b-1", "dotted": "vh.dot.ted"}
 
 // key symbol -> bytes on the wire (request target)
-var wire = map[string]string{"c": "x", "sl": "/", "e2f": "%2F", "e25": "%25", "sp": "%20", "u": "%C3%A9"}
+var wire = map[string]string{"c": "x", "sl": "/", "e2f": "%2F", "e2fl": "%2f", "e25": "%25", "sp": "%20", "u": "%C3%A9", "plus": "+"}
 
 // inverse: character of an observed key -> key-character symbol
-var charSyms = map[rune]string{'x': "c", '/': "sl", '%': "pct", ' ': "sp", 'é': "u"}
+var charSyms = map[rune]string{'x': "c", '/': "sl", '%': "pct", ' ': "sp", 'é': "u", '+': "plus"}
 
 func bucketSym(name string) string {
 	for sym, n := range buckets {
